@@ -779,6 +779,28 @@ def special_programs():
         'bytes32 salt; bytes4 sel; uint plain; constructor(uint x, string memory s) { b = x; c = x; salt = bytes32(x); sel = bytes4(keccak256("f()")); plain = uint256(x); } }')
     add('address-zero-multiline', PRELUDE + 'contract A { mapping(address => mapping(uint => address)) reg; function f(address a, uint id) public {\n  if (reg[a][id] ==\n      address(0)) { }\n'
         '  require(\n    a\n    !=\n    address(0), "zero");\n  bool z = address(0)\n    == a;\n} }')
+    add('legacy-unnamed-fallback', 'pragma solidity ^0.5.0;\ncontract A { uint x; function() external payable { x = x + 1; } }\ncontract B { function() external; }\ncontract C { function () { } }')
+    add('cyclic-type-definitions', PRELUDE + 'type Price is Price;\ntype Shares is Assets;\ntype Assets is Shares;\ncontract A { Price p; Shares s; uint128 a; uint256 b; uint128 c; }\n'
+        'contract B { type Inner is Inner; Inner i; uint8 x; uint256 y; uint8 z; struct S { Price p; uint8 q; Assets r; } }')
+    add('long-operator-chain', PRELUDE + 'contract A { uint counter; function f(uint a) public returns (uint) { return counter++ ' + '+ 1 ' * 1300 + '; } }')
+    add('deep-parentheses', PRELUDE + 'contract A { function f(uint a) public returns (uint) { return ' + '(' * 1250 + 'a++ * 2' + ')' * 1250 + '; } }')
+    add('memory-param-as-index', PRELUDE + 'contract A { mapping(address => uint) credit; function f(uint[] memory order, uint[] memory values, uint[] memory out, address[] memory payees, uint[] memory amounts) public {\n'
+        '  for (uint i; i < 3; ++i) { out[order[i]] = values[i]; credit[payees[i]] = amounts[i]; }\n} function g(uint[] memory w, uint[] memory r) public returns (uint) { w[r[0]] = 1; return r.length; } }')
+    add('cjk-comments-in-library', 'pragma solidity ^0.8.10;\nlibrary Doc {\n  // ' + '\u4ee3\u5e01\u5408\u7ea6' * 30 + '\n  // ' + '\u00e4\u00f6\u00fc\u00df' * 40 + '\n  function id(uint a) internal pure returns (uint) { return a; }\n}\n'
+        'contract After {\n  uint x;\n  address o;\n  function f(uint a) public {\n    x = a + 1;\n    if (a >= 2) {\n      x = a * 4;\n    }\n    ++x;\n  }\n  function k() external {\n    selfdestruct(payable(o));\n  }\n}\n')
+    add('vertical-tab-indent', 'pragma solidity ^0.8.10;\n\x0bcontract A {\n\x0b\x0buint x;\n\x0c\n\x0b  function f(uint a) public {\n\x0bx = a + 1;\n\x0b\x0b++x;\n  }\n}\n')
+    add('enum-typed-fields', PRELUDE + 'enum Side { Buy, Sell }\nstruct Order { Side side; uint256 price; Side closing; }\ncontract Book { enum Kind { A, B } struct Slot { Kind k; uint256 v; Kind j; } Side s; uint256 t; Side u; }')
+    add('caret-after-comparator', 'pragma solidity >=0.8.4 ^0.8.0;\ncontract A { }')
+    add('caret-second-alternative', 'pragma solidity 0.7.6 || >=0.8.4 ^0.8.0;\ncontract A { }')
+    add('safemath-in-base-only', 'pragma solidity 0.7.6;\ncontract Base { using SafeMath for uint256; }\ncontract Derived is Base { function f(uint z) public returns (uint) { return z.add(2); } }\n'
+        'function freeCalc(uint z) pure returns (uint) { return z.mul(3); }\ncontract Sibling { function g(uint z) public returns (uint) { return z.sub(1); } }')
+    add('version-zero', 'pragma solidity 0.0.0;\ncontract A { using SafeMath for uint; function f(uint z) public { require(z > 0, "this message is definitely longer than thirty-two bytes"); z = z.add(2); } }')
+    add('ctor-after-writer', PRELUDE + 'contract A { uint limit; uint fee; uint kept; function setLimit(uint l) public { limit = l; fee += 1; } constructor(uint l, uint f) { limit = l; fee = f; kept = l; } }')
+    add('abstract-ctor-order', PRELUDE + 'abstract contract Ownable { address _o; function owner() public view returns (address) { return _o; } constructor() { _o = msg.sender; } }\n'
+        'contract C is Ownable { constructor() { } function f() public { } }')
+    add('multiline-declarations', PRELUDE + 'contract A {\n  mapping(address => mapping(address => uint256))\n    private allowances;\n  uint256\n    public\n    _checkpoint = 7;\n  uint256\n    public constant\n    LIMIT = 3;\n'
+        '  function\n    _named\n    ()\n    public\n  {\n  }\n  function plain()\n    external   \n  {\n  }\n  function spaced() public /* c */ \n\n  {\n  }\n}')
+    add('if-else-if-kinds', PRELUDE + 'contract A { uint x; function f(uint a) public { if (a == 1) { x = 1; } else if (a == 2) { x = 2; } else if (a == 3) { if (x > 0) { x = 3; } } else { x = 4; } if (a > 5) x = 5; else if (a > 6) x = 6; } }')
     add('free-functions', PRELUDE + 'function min(uint a, uint b) pure returns (uint) { return a < b ? a : b; }\n'
         'function twice(uint a) pure returns (uint) { return min(a, a) * 2; }\ncontract C { function f() public {} }\nfunction max(uint a, uint b) pure returns (uint) { return a >= b ? a : b; }')
     return P
